@@ -18,6 +18,7 @@ import (
 
 	"github.com/apernet/quic-go"
 
+	"github.com/apernet/hysteria/core/v2/internal/frag"
 	"github.com/apernet/hysteria/core/v2/internal/protocol"
 	"verif.local/hysim"
 )
@@ -255,6 +256,13 @@ type world struct {
 	maxDial    time.Duration
 	slowDial   bool   // a dial latency fault was injected at some point (counts as a stall)
 	hookOrig   string // original address of the datagram the hook is being called for
+
+	// a receiver behind a lossy path: one real Defragger per session is fed the fragments the
+	// server emits, minus seeded drops. Whatever it reassembles must be a reply that was injected.
+	lossy      map[uint32]*frag.Defragger
+	lossyRng   *hysim.Rand
+	lossyMixed int
+	lossyFirst string
 }
 
 func (w *world) allowed(addr string) bool {
@@ -315,6 +323,7 @@ func (w *world) SendMessage(buf []byte, msg *protocol.UDPMessage) error {
 		return nil
 	}
 	w.observeReply(pm)
+	w.lossyReceive(pm)
 	if w.limitDropAfter > 0 {
 		// the path's datagram limit shrinks in the middle of a fragment train
 		if w.limitDropAfter--; w.limitDropAfter == 0 {
@@ -380,6 +389,48 @@ func (w *world) observeReply(pm *protocol.UDPMessage) {
 	if r.got > 1 {
 		w.x.Violate("duplicate-reply", "reply g%d q%d relayed %d times", gen, seq, r.got)
 	}
+}
+
+// lossyReceive: "all-or-nothing" must also hold for a receiver that loses fragments. The
+// reassembler tells messages apart by packet ID and fragment count only, so it relies on the
+// sender giving every fragmented message of a session its own random ID. One mixed message can be
+// a legitimate 1-in-65535 coincidence of two random IDs; two in one run cannot.
+func (w *world) lossyReceive(pm *protocol.UDPMessage) {
+	if pm.FragCount <= 1 {
+		return
+	}
+	if w.lossy == nil {
+		w.lossy = map[uint32]*frag.Defragger{}
+		w.lossyRng = hysim.NewRand(w.policySeed^0x1055, 0x1055)
+	}
+	if w.lossyRng.Chance(1, 3) {
+		return // lost on the way
+	}
+	d := w.lossy[pm.SessionID]
+	if d == nil {
+		d = &frag.Defragger{}
+		w.lossy[pm.SessionID] = d
+	}
+	cp := *pm
+	cp.Data = append([]byte(nil), pm.Data...)
+	out := d.Feed(&cp)
+	if out == nil {
+		return
+	}
+	kind, gen, seq, ok := parseTag(out.Data)
+	if ok && kind == 2 {
+		if r := w.repl[msgKey{gen, seq}]; r != nil && r.size == len(out.Data) {
+			w.x.Probe("lossy-receiver-reassembled-a-reply")
+			return
+		}
+	}
+	w.lossyMixed++
+	if w.lossyMixed == 1 {
+		w.lossyFirst = fmt.Sprintf("session %d packet id %d (%d fragments, %d bytes)", pm.SessionID, pm.PacketID, pm.FragCount, len(out.Data))
+		w.x.Probe("lossy-receiver-mixed-message-once")
+		return
+	}
+	w.x.Violate("reassembled-never-sent", "a receiver that lost some fragments reassembled %d messages nobody sent (fragments of different replies joined: they carried the same packet id and fragment count); first: %s, now: session %d packet id %d (%d fragments, %d bytes)", w.lossyMixed, w.lossyFirst, pm.SessionID, pm.PacketID, pm.FragCount, len(out.Data))
 }
 
 func (w *world) origAddr(sid uint32) string { return fmt.Sprintf("first.s%d.sim:%d", sid, 1000+sid) }
@@ -591,8 +642,14 @@ func genC07(r *hysim.Rand, tier string) *hysim.Script {
 		case p < 45:
 			n := int64(r.Range(2, 6))
 			sc.Ops = append(sc.Ops, hysim.Op{K: "frag", A: []int64{sid, int64(r.Intn(3)), int64(r.Pick(20, 64, 900, 3000)), n, int64(r.Uint64() >> 1), int64(r.Pick(0, 0, 1))}})
-		case p < 65:
+		case p < 62:
 			sc.Ops = append(sc.Ops, hysim.Op{K: "reply", A: []int64{sid, int64(r.Pick(10, 100, 1000, 2500))}})
+		case p < 65:
+			// a train of equally sized replies on one session (each one fragmented when the limit is small)
+			sz := int64(r.Pick(1000, 2500, 3500))
+			for k := r.Range(3, 6); k > 0; k-- {
+				sc.Ops = append(sc.Ops, hysim.Op{K: "reply", A: []int64{sid, sz}})
+			}
 		case p < 88:
 			// time gaps biased around the idle timeout and the 1 s sweep period
 			base := r.Pick64(1, 200, 999, 1000, 1001, timeoutS*1000-1, timeoutS*1000, timeoutS*1000+1, timeoutS*1000+999, timeoutS*1000+1001, (timeoutS+1)*1000+1, timeoutS*500)
